@@ -494,7 +494,9 @@ class ComparisonOperator(BinaryOperator):
     def term(self, time="t"):
         element_1 = extractTerm(self.element_1, time)
         element_2 = extractTerm(self.element_2, time)
-        return "((" + str(element_1) + "){}(".format(self.sign) + str(element_2) + "))"
+        # bool(): an operand computed by numpy (exp, sin, lookups, ...) makes the comparison a numpy.bool_, for which + is a
+        # logical or and - is not defined; a comparison used as a number counts as 0 or 1
+        return "bool((" + str(element_1) + "){}(".format(self.sign) + str(element_2) + "))"
 
     def resolve_dimensions(self):
         return -1
